@@ -365,7 +365,11 @@ def main():
         if st.get('repeat_process'):
             # a second, fresh process (new hasher seeds) evaluating the same calls in REVERSED order (another call history)
             rinp = os.path.join(workdir, f'{name}-{build}.rev.in'); open(rinp, 'w').write('\n'.join(reversed(lines)) + '\n')
-            _, exp2r, _ = run_impl(bins[build], rinp, os.path.join(workdir, f'{name}-{build}.exp2'), st.get('case_timeout', 10.0), env=senv)
+            # … on a differently configured host: a decimal-comma locale, another user, home and terminal (a pure builtin is a function of its
+            # arguments, not of the process environment; the time zone stays, the RFC builtins are documented to use it)
+            env2 = dict(senv, LC_ALL='de_DE.UTF-8', LC_NUMERIC='de_DE.UTF-8', LC_TIME='fr_FR.UTF-8', LC_COLLATE='tr_TR.UTF-8', LANG='de_DE.UTF-8', LANGUAGE='de:fr', HOME='/nonexistent',
+                        USER='nobody', LOGNAME='nobody', TERM='dumb', COLUMNS='40', RUST_BACKTRACE='0', TMPDIR='/nonexistent')
+            _, exp2r, _ = run_impl(bins[build], rinp, os.path.join(workdir, f'{name}-{build}.exp2'), st.get('case_timeout', 10.0), env=env2)
             exp2 = list(reversed(exp2r)) if len(exp2r) == len(lines) else []
             for k, line in enumerate(lines):
                 a = exp[k] if k < len(exp) else 'missing'; b = exp2[k] if k < len(exp2) else 'missing'
